@@ -60,11 +60,13 @@ impl Scenario for C07S {
         "C07"
     }
     fn variants(&self) -> &'static [&'static str] {
-        &["os", "inproc"]
+        &["os", "inproc", "hook"]
     }
     fn count(&self, tier: Tier, variant: &str) -> u64 {
         match (tier, variant) {
             (Tier::Quick, "os") => 20_000,
+            (Tier::Quick, "hook") => 10_000,
+            (Tier::Thorough, "hook") => 300_000,
             (Tier::Quick, _) => 6000,
             (Tier::Thorough, "os") => 600_000,
             (Tier::Thorough, _) => 200_000,
